@@ -103,6 +103,9 @@ class Graph:
                          which raises GraphConfigError on missing annotations or
                          type mismatches. Default is False (no type checking).
         """
+        # The node collection is walked more than once below: materialise it so
+        # that a one-shot iterable (a generator) is validated like a list.
+        nodes = list(nodes)
         self.name = name
         self._strict_types = strict_types
         self._bound: dict[str, Any] = {}
